@@ -7,10 +7,10 @@ import (
 )
 
 func init() {
-	probeNames["C12"] = []string{"queue_full_error", "flush_after_space_freed", "read_on_full_file", "ack_on_full_file", "cycle_completed", "drift_checked", "event_gt_half_file", "pq_reopen"}
+	probeNames["C12"] = []string{"queue_full_error", "flush_after_space_freed", "read_on_full_file", "ack_on_full_file", "cycle_completed", "drift_checked", "event_gt_half_file", "pq_reopen", "pq_reopen_with_new_max_size"}
 	register(&PropDef{
 		ID: "C12", Level: "exploration", QuickSec: 50, ThoroSec: 900,
-		Rule: "each run = fill/drain cycles on a small bounded simulated file (64-160 KiB, page size 1024-4096, write buffer min..16 pages): the producer writes events (sizes from 1 byte to more than half the file) until Write/Next/Flush report an error, the consumer reads and ACKs a drawn amount, repeated 3-40 cycles (up to 200 thorough), with reopen between some cycles. Oracles: FIFO/byte-exact delivery over the whole run (C05 oracle; a Write that returned (0,err) appended nothing); reading and ACK succeed on the full file; after ACKs freed space a later Flush succeeds within 2 calls and the buffered events come out in order; space bound: data pages in use <= pages spanned by un-ACKed+buffered events + constant (root page + pages of the most recent event + 2), and no drift: with everything ACKed the number of pages in use after the first cycle equals the number after the last cycle. Non-trivial = run that hit the full-file error at least twice and recovered; distinct = op list + config + schedule hash.",
+		Rule: "each run = fill/drain cycles on a small bounded simulated file (64-160 KiB, page size 1024-4096, write buffer min..16 pages): the producer writes events (sizes from 1 byte to more than half the file) until Write/Next/Flush report an error, the consumer reads and ACKs a drawn amount, repeated 3-40 cycles (up to 200 thorough), with reopen between some cycles; in a third of the runs some reopens give the (possibly full) file a new limit through FlagUpdMaxSize (grow by 16-64 KiB or shrink, also below the space in use; all content oracles stay on, the space oracles are off once the limit was reduced). Oracles: FIFO/byte-exact delivery over the whole run (C05 oracle; a Write that returned (0,err) appended nothing); reading and ACK succeed on the full file; after ACKs freed space a later Flush succeeds within 2 calls and the buffered events come out in order; space bound: data pages in use <= pages spanned by un-ACKed+buffered events + constant (root page + pages of the most recent event + 2), and no drift: with everything ACKed the number of pages in use after the first cycle equals the number after the last cycle. Non-trivial = run that hit the full-file error at least twice and recovered; distinct = op list + config + schedule hash.",
 		Real: defaultReal, Stub: defaultStub, Assume: defaultAssume,
 		Body: c12Body,
 	})
@@ -49,14 +49,19 @@ func c12Body(e *Env) {
 	defer p.Close()
 	ps := cfg.PageSize
 	maxPages := cfg.MaxSize / ps
+	resizes := 0
 	dataInUse := func() int { return int(txfile.VerifFileStats(p.F).DataAllocated) }
 	live := func() int { // data pages in use according to the allocator
 		s := txfile.VerifAllocSnapshot(p.F)
 		return int(s.DataEnd) - 2 - int(s.MetaTotal) - int(s.DataAvail) + overflowAdj(s)
 	}
 	_ = dataInUse
+	shrunk := false
 	checkSpace := func(when string) {
-		if e.Failed() {
+		if e.Failed() || shrunk {
+			// after the limit was reduced below the space in use, pages past the
+			// limit that the engine gave up (neither free nor in use) would be
+			// counted as held by the queue: no space oracle from then on
 			return
 		}
 		unacked := p.Sizes[p.acked:]
@@ -77,7 +82,8 @@ func c12Body(e *Env) {
 			e.Probe("drift_checked")
 		}
 		if got := live(); got > bound {
-			e.Fail("C12", "space-bound", "%s: %d data pages in use, bound is %d (pages spanned by %d un-ACKed events) + %d (constant)", when, got, pagesSpanned(unacked, ps), len(unacked), constant)
+			sn := txfile.VerifAllocSnapshot(p.F)
+			e.Fail("C12", "space-bound", "%s: %d data pages in use, bound is %d (pages spanned by %d un-ACKed events) + %d (constant); allocator: data end %d, meta end %d, meta area %d pages, %d free data pages, limit %d pages", when, got, pagesSpanned(unacked, ps), len(unacked), constant, sn.DataEnd, sn.MetaEnd, sn.MetaTotal, sn.DataAvail, p.Cfg.MaxSize/ps)
 		}
 	}
 	explicit := c.Tasks != nil
@@ -86,13 +92,18 @@ func c12Body(e *Env) {
 			if e.Failed() {
 				return
 			}
+			before := p.Cfg.MaxSize
 			p.Apply(op)
+			if p.Cfg.MaxSize < before {
+				shrunk = true
+			}
 		}
 		checkSpace("end of explicit history")
 		return
 	}
 	g := NewPQGen(p, e.Rng("ops"))
 	g.MaxPagesPerEvent = max(2, maxPages/2)
+	resizeRuns := rng.Intn(3) == 0
 	fulls := 0
 	firstEmptyUse := -1
 	for cycle := 0; cycle < cfg.NTx && !e.Failed(); cycle++ {
@@ -179,7 +190,7 @@ func c12Body(e *Env) {
 			}
 		}
 		// --- drift: with everything ACKed the space in use does not depend on history
-		if !e.Failed() && p.acked == p.completed() && p.acked == p.cbFlushed && p.completed() > 0 {
+		if !e.Failed() && !shrunk && p.acked == p.completed() && p.acked == p.cbFlushed && p.completed() > 0 {
 			use := live()
 			lastSz := p.Sizes[len(p.Sizes)-1]
 			limit := 1 + 2*pagesSpanned([]int{lastSz}, ps) + 2
@@ -193,6 +204,24 @@ func c12Body(e *Env) {
 		}
 		if rng.Intn(8) == 0 && !e.Failed() && !p.full {
 			p.Apply(Op{K: "reopen"})
+		} else if resizeRuns && rng.Intn(5) == 0 && !e.Failed() {
+			// the operator gives the (possibly full) queue file a new limit
+			nm := p.Cfg.MaxSize + (1+rng.Intn(4))*(16<<10)
+			if resizes%2 == 1 || rng.Intn(3) == 0 {
+				nm = max(64<<10, p.Cfg.MaxSize-(1+rng.Intn(4))*(16<<10))
+			}
+			if rng.Intn(4) == 0 {
+				nm += 100
+			}
+			before := p.Cfg.MaxSize
+			if p.Apply(Op{K: "resize", A: nm}) {
+				if p.Cfg.MaxSize < before {
+					shrunk = true
+				}
+				resizes++
+				maxPages = p.Cfg.MaxSize / ps
+				g.MaxPagesPerEvent = max(2, maxPages/2)
+			}
 		}
 		e.Probe("cycle_completed")
 		e.Yield("op")
